@@ -11,6 +11,7 @@ import BV.C09.Lemmas6
 import BV.C09.Lemmas7
 import BV.C09.Lemmas8
 import BV.C09.Lemmas9
+import BV.C09.Lemmas10
 import BV.Generated.C09
 namespace BV.C09
 open Spec
@@ -317,6 +318,14 @@ theorem walkback_mem (p : Params) (chain : List Hdr) :
     findPrevTestNetDifficulty p chain = p.powLimitBits ∨
       ∃ h ∈ chain, findPrevTestNetDifficulty p chain = h.bits := Lemmas.l5_walkback_mem p chain
 
+/-- Locality (side branches): the required difficulty on a branch depends only on the branch's own last
+    `blocksPerRetarget` headers and on its height — never on what lies below them, e.g. on the main chain the
+    branch forked from, or on another branch of the same height. -/
+theorem calcNext_local (p : Params) (hbpr : 0 < p.blocksPerRetarget) (l r r' : List Hdr) (t : Int)
+    (hlen : r.length = r'.length) (hl : p.blocksPerRetarget ≤ (l.length : Int)) :
+    calcNextRequiredDifficulty p (l ++ r) t = calcNextRequiredDifficulty p (l ++ r') t :=
+  Lemmas.l10_calcNext_local p hbpr l r r' t hlen hl
+
 /-- Testnet min-difficulty rule: more than the reduction time after the tip ⇒ powLimitBits. -/
 theorem mindiff_late_block (p : Params) (last : Hdr) (rest : List Hdr) (t : Int)
     (hnr : p.noRetarget = false) (hr : p.reduceMinDiff = true)
@@ -345,6 +354,10 @@ theorem mtp_is_median (chain : List Hdr) (hne : chain ≠ []) :
     m ∈ ts ∧ (ts.filter (· < m)).length ≤ ts.length / 2 ∧
       (ts.filter (· > m)).length ≤ (ts.length - 1) / 2 :=
   Lemmas.mtp_is_median chain hne
+
+/-- Locality: the MTP depends only on the branch's own last 11 headers. -/
+theorem mtp_local (l r r' : List Hdr) (hl : MEDIAN_TIME_SPAN ≤ l.length) :
+    calcPastMedianTime (l ++ r) = calcPastMedianTime (l ++ r') := Lemmas.l10_mtp_local l r r' hl
 
 /-- Under the time-stamp rule (a new header must be later than the MTP of its parent) the median time
     past never decreases along a chain. -/
@@ -532,6 +545,13 @@ theorem subsidy_antitone (h h' I : Nat) (hh : h ≤ h') : subsidy h' I ≤ subsi
   Lemmas.l6_subsidy_antitone h h' I hh
 theorem subsidy_zero_iff (h I : Nat) (hI : 0 < I) : subsidy h I = 0 ↔ 33 * I ≤ h :=
   Lemmas.l6_subsidy_zero_iff h I hI
+
+/-- Once the subsidy is zero it never comes back (no epoch, however extreme, pays again) … -/
+theorem subsidy_never_returns (h h' I : Nat) (hh : h ≤ h') (hz : subsidy h I = 0) : subsidy h' I = 0 :=
+  Lemmas.l10_subsidy_never_returns h h' I hh hz
+/-- … and the Go function (shift counts ≥ 64 included) pays nothing from era 33 on, for every interval. -/
+theorem calcBlockSubsidy_zero_from_era_33 (h I : Nat) (hI : 0 < I) (hq : 33 * I ≤ h) :
+    calcBlockSubsidy (h : Int) (I : Int) = 0 := Lemmas.l10_calcBlockSubsidy_zero h I hI hq
 
 /-- Total issuance is monotone in the height. -/
 theorem totalSubsidy_mono (I N M : Nat) (h : N ≤ M) : totalSubsidy I N ≤ totalSubsidy I M :=
